@@ -147,7 +147,8 @@ def hstep {F S : Type} (I : Impl α F S) (st : HState α F S) : HOp α → HObs 
     match st.strms s with
     | none => (.unbound, st)
     | some t =>
-      if t.done then (.outs [] true, st)
+      -- a finished generator: StopIteration at once — if anything is requested at all
+      if t.done then (.outs [] (decide (0 < k)), st)
       else
         -- the list iterator delivers the items from `pos` on of the list AS IT IS NOW
         let new := ((st.nums t.src).drop t.pos).take k
